@@ -336,12 +336,19 @@ pub fn check_scenario(ctx: &mut Ctx, sc: &Scenario) -> Result<(), String> {
 pub enum SOp {
     U2fRegister { handle: u8, app: u8 },
     Create { exclude_hit: bool, alg_supported: bool, deny: bool, rk: bool },
-    Assert { target: u8, prf: bool, deny: bool },
+    Assert {
+        target: u8,
+        prf: bool,
+        deny: bool,
+        /// shared map only: another party removes the selected credential from the store while the user is being asked
+        #[serde(default)]
+        removed_during_prompt: bool,
+    },
 }
 
 #[derive(Clone, Debug, Serialize, Deserialize, PartialEq, Eq, Hash)]
 pub struct Shipped {
-    /// 0 MemoryStore, 1 Option slot
+    /// 0 MemoryStore, 1 Option slot, 2 Arc<Mutex<MemoryStore>> (a second handle can change it during a ceremony)
     pub store: u8,
     pub counter_cfg: bool,
     pub hmac: HmacCfg,
@@ -354,7 +361,9 @@ fn same_but_counter(a: &PkSnap, b: &PkSnap) -> bool {
     *a == b2
 }
 
-fn run_shipped<S: crate::ceremony::StoreAccess>(ctx: &mut Ctx, store: S, single_slot: bool, c: &Shipped) -> Result<(), String> {
+type Remover = std::sync::Arc<dyn Fn(&[u8]) + Send + Sync>;
+
+fn run_shipped<S: crate::ceremony::StoreAccess>(ctx: &mut Ctx, store: S, single_slot: bool, c: &Shipped, remover: Option<Remover>) -> Result<(), String> {
     let uv = ScriptedUv::new(UvScript::verified());
     let mut auth = cer::build_authenticator(store, uv.clone(), &AuthCfg { counter: c.counter_cfg, hmac: c.hmac, ..Default::default() });
     let mut sorted = |v: Vec<PkSnap>| {
@@ -367,7 +376,12 @@ fn run_shipped<S: crate::ceremony::StoreAccess>(ctx: &mut Ctx, store: S, single_
         ctx.eval();
         match op {
             SOp::U2fRegister { handle, app } => {
-                let handle: Vec<u8> = format!("c07-key-handle-{}", handle % 3).into_bytes();
+                // a pool of five key handles (so they repeat), two of them longer than the one-byte length field of the response
+                let handle: Vec<u8> = match handle % 5 {
+                    3 => [b"c07-long-key-handle-".as_slice(), &[0x4b; 236]].concat(),
+                    4 => [b"c07-longer-key-handle-".as_slice(), &[0x4c; 700]].concat(),
+                    k => format!("c07-key-handle-{k}").into_bytes(),
+                };
                 let application = sha256(&[b"c07-app-", &[app % 2][..]].concat());
                 let res = crate::rt::block_on(U2fApi::register(&mut auth, RegisterRequest { challenge: [7; 32], application }, &handle));
                 let after = sorted(auth.store().snapshot());
@@ -428,10 +442,33 @@ fn run_shipped<S: crate::ceremony::StoreAccess>(ctx: &mut Ctx, store: S, single_
                     }
                 }
             }
-            SOp::Assert { target, prf, deny } => {
+            SOp::Assert { target, prf, deny, removed_during_prompt } => {
                 uv.set(if *deny { UvScript { outcome: Err(0x27), ..UvScript::verified() } } else { UvScript::verified() });
                 let mine: Vec<&PkSnap> = before.iter().filter(|p| p.rp_id == RP).collect();
                 let allow = (!mine.is_empty()).then(|| vec![cer::descriptor(&mine[*target as usize % mine.len()].id)]);
+                if let (true, Some(rm), Some(sel)) = (*removed_during_prompt, &remover, mine.get(*target as usize % mine.len().max(1))) {
+                    // the credential disappears while the user is asked: the assertion may fail, or succeed and thereby
+                    // write the record back; it may not succeed with a counter the store does not hold afterwards
+                    let (rm, id) = (rm.clone(), sel.id.clone());
+                    let id2 = id.clone();
+                    uv.on_next_check(move || rm(&id2));
+                    let ext = prf.then(|| get_assertion::ExtensionInputs { hmac_secret: None, prf: Some(AuthenticatorPrfInputs { eval: Some(AuthenticatorPrfValues { first: [3u8; 32], second: None }), eval_by_credential: None }) });
+                    let req = get_assertion::Request { rp_id: RP.into(), client_data_hash: vec![6u8; 32].into(), allow_list: allow, extensions: ext, options: get_assertion::Options { rk: false, up: true, uv: true }, pin_auth: None, pin_protocol: None };
+                    let res = crate::rt::block_on(auth.get_assertion(req));
+                    let after = sorted(auth.store().snapshot());
+                    ctx.class(&format!("shipped/assert-while-the-credential-is-removed/{}", if res.is_ok() { "ok" } else { "err" }));
+                    if let (Ok(r), Some(_)) = (&res, sel.counter) {
+                        let reported = u32::from_be_bytes(r.auth_data.to_vec()[33..37].try_into().unwrap());
+                        let held = after.iter().find(|p| p.id == id).and_then(|p| p.counter);
+                        if held != Some(reported) {
+                            return Err(format!("op #{i}: an assertion was returned with counter {reported} but the store holds {held:?} for that credential (it was removed while the user was asked)"));
+                        }
+                    }
+                    if after.iter().any(|a| a.id != id && !before.contains(a)) || before.iter().any(|b| b.id != id && !after.contains(b)) {
+                        return Err(format!("op #{i}: an authentication changed a record other than the selected one"));
+                    }
+                    continue;
+                }
                 let ext = prf.then(|| get_assertion::ExtensionInputs { hmac_secret: None, prf: Some(AuthenticatorPrfInputs { eval: Some(AuthenticatorPrfValues { first: [3u8; 32], second: None }), eval_by_credential: None }) });
                 let req = get_assertion::Request { rp_id: RP.into(), client_data_hash: vec![6u8; 32].into(), allow_list: allow, extensions: ext, options: get_assertion::Options { rk: false, up: true, uv: true }, pin_auth: None, pin_protocol: None };
                 let res = crate::rt::block_on(auth.get_assertion(req));
@@ -461,10 +498,18 @@ fn run_shipped<S: crate::ceremony::StoreAccess>(ctx: &mut Ctx, store: S, single_
 }
 
 pub fn check_shipped(ctx: &mut Ctx, c: &Shipped) -> Result<(), String> {
-    ctx.sample(&format!("shipped/store{}", c.store % 2), || json!(c));
-    match c.store % 2 {
-        0 => run_shipped(ctx, passkey_authenticator::MemoryStore::new(), false, c),
-        _ => run_shipped(ctx, None::<passkey_types::Passkey>, true, c),
+    ctx.sample(&format!("shipped/store{}", c.store % 3), || json!(c));
+    match c.store % 3 {
+        0 => run_shipped(ctx, passkey_authenticator::MemoryStore::new(), false, c, None),
+        1 => run_shipped(ctx, None::<passkey_types::Passkey>, true, c, None),
+        _ => {
+            let shared = std::sync::Arc::new(tokio::sync::Mutex::new(passkey_authenticator::MemoryStore::new()));
+            let s2 = shared.clone();
+            let remover: Remover = std::sync::Arc::new(move |id: &[u8]| {
+                s2.try_lock().expect("the store is not locked while the user is asked").remove(id);
+            });
+            run_shipped(ctx, shared, false, c, Some(remover))
+        }
     }
 }
 
@@ -472,9 +517,9 @@ fn shipped() -> impl Strategy<Value = Shipped> {
     let op = prop_oneof![
         3 => (any::<u8>(), any::<u8>()).prop_map(|(handle, app)| SOp::U2fRegister { handle, app }),
         3 => (proptest::bool::weighted(0.3), proptest::bool::weighted(0.8), proptest::bool::weighted(0.15), any::<bool>()).prop_map(|(exclude_hit, alg_supported, deny, rk)| SOp::Create { exclude_hit, alg_supported, deny, rk }),
-        4 => (any::<u8>(), proptest::bool::weighted(0.4), proptest::bool::weighted(0.15)).prop_map(|(target, prf, deny)| SOp::Assert { target, prf, deny }),
+        4 => (any::<u8>(), proptest::bool::weighted(0.4), proptest::bool::weighted(0.15), proptest::bool::weighted(0.2)).prop_map(|(target, prf, deny, removed_during_prompt)| SOp::Assert { target, prf, deny, removed_during_prompt }),
     ];
-    (0u8..2, any::<bool>(), prop_oneof![Just(HmacCfg::None), Just(HmacCfg::UvOnly), Just(HmacCfg::WithoutUvMc)], proptest::collection::vec(op, 1..12)).prop_map(|(store, counter_cfg, hmac, ops)| Shipped { store, counter_cfg, hmac, ops })
+    (0u8..3, any::<bool>(), prop_oneof![Just(HmacCfg::None), Just(HmacCfg::UvOnly), Just(HmacCfg::WithoutUvMc)], proptest::collection::vec(op, 1..12)).prop_map(|(store, counter_cfg, hmac, ops)| Shipped { store, counter_cfg, hmac, ops })
 }
 
 pub fn check_run(ctx: &mut Ctx, run: &Run) -> Result<(), String> {
@@ -489,7 +534,7 @@ pub fn check_run(ctx: &mut Ctx, run: &Run) -> Result<(), String> {
 
 pub fn run(ctx: &mut Ctx) {
     ctx.level = "fault_enumeration";
-    ctx.rule = "scenarios = generated product of operation (create / assert / U2F register at the authenticator API, create / assert through Client) x hmac-secret config x counter setting x store capability x rk/up/uv x user-validation outcome and suspensions x algorithm support x pin-auth x exclude/allow list (none, miss, hit) x PRF request x selected credential's counter and secrets x store suspensions. For every scenario: the fault-free run, EVERY fallible store call (find/save/update) of that run failing with each status of {0x00,0x01,0x2E,0x28,0x7F,0xF2,0x19} singly, and cancellation (drop) after EVERY number of polls 0..total; plus generated combinations of 2-3 faults with cancellation; plus histories on the shipped MemoryStore and Option slot whose ceremonies fail by themselves (refused user, excluded credential, unsupported algorithm, PRF the credential cannot serve, U2F key handles registered again), judged by store snapshots before/after. Non-trivial = a run in which a fault was planned or the operation was dropped; distinct by run.".into();
+    ctx.rule = "scenarios = generated product of operation (create / assert / U2F register at the authenticator API, create / assert through Client) x hmac-secret config x counter setting x store capability x rk/up/uv x user-validation outcome and suspensions x algorithm support x pin-auth x exclude/allow list (none, miss, hit) x PRF request x selected credential's counter and secrets x store suspensions. For every scenario: the fault-free run, EVERY fallible store call (find/save/update) of that run failing with each status of {0x00,0x01,0x2E,0x28,0x7F,0xF2,0x19} singly, and cancellation (drop) after EVERY number of polls 0..total; plus generated combinations of 2-3 faults with cancellation; plus histories on the shipped MemoryStore and Option slot whose ceremonies fail by themselves (refused user, excluded credential, unsupported algorithm, PRF the credential cannot serve, U2F key handles registered again or longer than 255 bytes; on a shared map also the selected credential removed by another party while the user is asked), judged by store snapshots before/after. Non-trivial = a run in which a fault was planned or the operation was dropped; distinct by run.".into();
     ctx.assumptions = vec![
         "suspension points are the ones the public traits offer: user validation and every store call (the doubles suspend a generated number of times)".into(),
         "get_info of the store cannot fail (it returns no Result)".into(),
